@@ -17,6 +17,7 @@ RULE = (
     'Non-trivial = at least two atoms of different mass in a non-cubic or rotated cell; distinct = SHA-1 of (walk, '
     'species, cell, parameters).'
 )
+RULE += ' Added in rounds 5-10: in-place edits (temperature, time step, extend) re-queried through Trajectory.metrics(); 1/T law on a second live trajectory; cell scale over six decades; hydrogen isotopes; lists of different runs (other cell / temperature / a one-frame run) for the Std variants; arbitrary time steps.'
 ASSUMPTIONS = [
     'CODATA 2018 exact constants (k_B, e, N_A); atomic masses from pymatgen Element data',
     'relative tolerance 1e-9; total time = n_frames x time_step',
